@@ -486,6 +486,42 @@ def run_entry(case, R):
                 pass
     changed = [p for p, a in arrs if digest(a) != before[p] and p not in exempt]
     R.check('C20.purity', not changed, f'purity/modified/{name}', f'{name} modified its argument(s) {changed}', args=changed)
+    # (c) values, not identities: the same argument objects with new contents (a caller updating its buffers in place, e.g. recursive
+    # PSD smoothing) must give what fresh copies of the new contents give, and a result handed out earlier must survive later calls
+    if not o.get('exempt') and seed is None or (not o.get('exempt') and kw.get('num_classes') is None):
+        tweak = [a for pth, a in arrs if a.dtype.kind in 'fc' and a.flags.writeable and a.size and pth.startswith('args')]
+        if tweak:
+            try:
+                with opt_ctx_f():
+                    if seed is not None:
+                        np.random.seed(seed)
+                    held_raw = fn(*args, **kw)
+                held = copy.deepcopy(held_raw)
+                saved = [a.copy() for a in tweak]
+                for a in tweak:
+                    a *= 1.25                                   # exact in binary: positivity, Hermitian symmetry, unit directions survive
+                try:
+                    args_f, kw_f = copy.deepcopy((args, kw))
+                    with opt_ctx_f():
+                        if seed is not None:
+                            np.random.seed(seed)
+                        r_same_objects = copy.deepcopy(fn(*args, **kw))
+                        if seed is not None:
+                            np.random.seed(seed)
+                        r_fresh_objects = fn(*args_f, **kw_f)
+                    R.check('C20.repeat', same(r_same_objects, r_fresh_objects), f'repeat/identity-not-value/{name}',
+                            f'{name}: the same argument objects with new contents give another result than fresh copies of those contents (something is remembered per object)')
+                    aliases_args = any(np.may_share_memory(ra, a) for _, ra in arrays_in(dict(result=held_raw if not isinstance(held_raw, np.ndarray) else [held_raw])) for _, a in arrs)
+                    # (a result that is a view of the caller's own argument changes with it, by the caller's own doing)
+                    R.check('C20.repeat', aliases_args or same(held_raw, held), f'repeat/earlier-result-overwritten/{name}',
+                            f'{name}: a result handed out by an earlier call was changed by a later call (results share a buffer)')
+                finally:
+                    for a, b in zip(tweak, saved):
+                        a[...] = b
+            except Exception as e:
+                if not instr.is_library_exception(e):
+                    raise
+                R.count(f'{name}: value-vs-identity probe raised {type(e).__name__}')
     if any(a.size > 1 for _, a in arrs):
         R.mark_nontrivial('entry', name, layout, sorted((k, str(v)[:20]) for k, v in kw.items() if not isinstance(v, np.ndarray)))
     R.sample(dict(lane='entry', name=name, array_args=[p for p, _ in arrs][:6]))
